@@ -6,7 +6,11 @@ RULE = ("(1) util::filename_navigate on random (current, relative) pairs built f
         "slash styles, leading slashes and <std>/ vs the Lean model and an independent path-stack reference; (2) random inclusion graphs "
         "(2-6 files in up to 3 directories, chains, diamonds, cycles, self-inclusion, #once subsets, several spellings per edge) assembled "
         "by asm::assemble on the mock file server, marker bytes compared with the model's expansion and with a reference expansion; "
-        "(3) incbin/incbinstr/inchexstr with every (start, length) around the file size. Non-trivial = distinct navigations containing '..' "
+        "(3) incbin/incbinstr/inchexstr with every (start, length) around the file size and near the top of usize; (4) directory trees in which "
+        "every use of an inclusion function (top level, constant, rule production, body of a user function, instruction argument, asm block) "
+        "names a data file relative to the file the call is written in, against the reference navigation; (5) the real binary in a scratch "
+        "directory (root given by a relative path, a directory literally named <std>, sentinel files one and two levels outside): every "
+        "spelling that names a file outside the working directory or a disk file under <std>/ must be rejected, controls must assemble. Non-trivial = distinct navigations containing '..' "
         "or a leading slash, distinct graphs with >= 2 inclusion edges.")
 
 COMPS = ["a", "b", "lib", "x.asm", "inc", "..", "..", ".", "", "d.e", "Z"]
@@ -104,6 +108,62 @@ def gen_graph(rng):
         files[name] = ops
     # one to three root files (they share the #once set); roots may also be included by other files
     return names, files, rng.choice([1, 1, 1, 2, 2, 3])
+
+
+def gen_tree(rng):
+    """a directory tree of source files and data files; every use of an inclusion function names a data file relative to the
+    file in which the call is written: at top level, in a constant, in a rule's production (used from another file), in the
+    body of a user function (called from another file), as an instruction argument, inside an asm block.
+    Returns (files, expected bytes)."""
+    dirs = ["", "lib/", "lib/sub/", "other/"]
+    rng.shuffle(dirs)
+    dirs = [""] + [d for d in dirs if d != ""][: rng.randrange(1, 4)]
+    data = {}
+    for i, d in enumerate(dirs):
+        data[d + "d.bin"] = bytes([0x10 * (i + 1) + 1, 0x10 * (i + 1) + 2])
+        if rng.random() < 0.5:
+            data[d + "e.bin"] = bytes([0x10 * (i + 1) + 9])
+    names = sorted(data)
+    libs = [d + "f%d.asm" % i for i, d in enumerate(dirs[1:])]
+    rng.shuffle(libs)
+
+    def target(frm_dir):
+        t = rng.choice(names)
+        return spell(rng, relpath(frm_dir + "x", t)).replace("\\", "\\\\"), data[t]
+
+    texts = {}
+    expected = []
+    uses = []          # lines of main.asm after the includes, with the bytes they must emit
+    k = 0
+    for lib in libs:
+        ldir = lib[: lib.rindex("/") + 1]
+        lines = []
+        for _ in range(rng.randrange(1, 4)):
+            k += 1
+            rel, val = target(ldir)
+            kind = rng.choice(["top", "const", "rule", "fn", "fn", "asm", "fnfn"])
+            if kind == "top":
+                lines.append('#d incbin("%s")' % rel); expected += list(val)
+            elif kind == "const":
+                lines.append('c%d = incbin("%s")' % (k, rel)); uses.append(("#d c%d" % k, val))
+            elif kind == "rule":
+                lines.append('#ruledef\n{\n    r%d => incbin("%s")\n}' % (k, rel)); uses.append(("r%d" % k, val))
+            elif kind == "fn":
+                lines.append('#fn f%d() => incbin("%s")' % (k, rel)); uses.append(("#d f%d()" % k, val))
+            elif kind == "fnfn":
+                lines.append('#fn f%d() => incbin("%s")\n#fn g%d() => f%d()' % (k, rel, k, k)); uses.append(("#d g%d()" % k, val))
+            else:
+                lines.append('#ruledef\n{\n    e%d {x} => x\n    a%d => asm { e%d incbin("%s") }\n}' % (k, k, k, rel)); uses.append(("a%d" % k, val))
+        texts[lib] = "\n".join(lines) + "\n"
+    main = ["#ruledef\n{\n    emit {x} => x\n}"] + ['#include "%s"' % spell(rng, l).replace("\\", "\\\\") for l in libs]
+    rng.shuffle(uses)
+    for line, val in uses:
+        main.append(line); expected += list(val)
+    for _ in range(rng.randrange(1, 3)):
+        rel, val = target("")
+        main.append(rng.choice(['#d incbin("%s")', 'emit incbin("%s")']) % rel); expected += list(val)
+    files = [("main.asm", "\n".join(main) + "\n")] + [(l, texts[l]) for l in libs] + [(n, data[n]) for n in names]
+    return files, expected
 
 
 def render_file(ops):
@@ -235,6 +295,13 @@ def run(chk):
         args = rng.choice([1, 2, 3])
         start = rng.randrange(0, units + 3)
         size = rng.randrange(0, units + 3)
+        if rng.random() < 0.12:
+            # arguments near the top of usize: start + size and start * bits-per-digit must not wrap (F42)
+            big = [2 ** 64 - 1, 2 ** 64 - 2, 2 ** 63, 2 ** 62, 2 ** 64 - 1 - units, 2 ** 61 + 1]
+            if rng.random() < 0.6:
+                size = rng.choice(big)
+            if rng.random() < 0.5:
+                start = rng.choice(big)
         rcases.append((fn, content, units, args, start, size))
     aops, mops = [], []
     for fn, content, units, args, start, size in rcases:
@@ -283,6 +350,102 @@ def run(chk):
         if got.strip() != exp.strip():
             chk.violate("inclusion function does not return exactly the requested range", inp, exp, got)
     chk.traces += len(aops)
+    # ---------------- inclusion functions are relative to the file that contains them
+    tcases = [gen_tree(rng) for _ in range(3000 if thorough else 500)]
+    corpus = os.path.join(fw.VERIF, "corpus", "C14")
+    for fn_ in sorted(os.listdir(corpus)) if os.path.isdir(corpus) else []:
+        if fn_.endswith(".json"):
+            d = json.load(open(os.path.join(corpus, fn_)))
+            tcases.insert(0, ([(n, c.encode("latin1") if n.endswith(".bin") else c) for n, c in d["files"]], d["expected"]))
+    aops = [fw.asm_op(files) for files, _ in tcases]
+    impl = fw.run_oracle_resilient(aops, "c14t")
+    for (files, exp), a in zip(tcases, impl):
+        chk.evaluations += 1
+        inp = {"files": [(n, c if isinstance(c, str) else c.decode("latin1")) for n, c in files]}
+        if a.get("panic") is not None or a.get("died") or a.get("not_run"):
+            chk.violate("inclusion crashed the assembler (no diagnostic)", inp, "bytes", str(a)[:200])
+            continue
+        if a.get("output") is not None and not a.get("has_errors"):
+            bits = a["output"]["bits"]
+            got = "ok " + " ".join(str(int(bits[i:i + 8], 2)) for i in range(0, len(bits), 8))
+        else:
+            got = "err " + "|".join(fw.all_descr(a.get("messages", [])))[:160]
+        chk.count("tree_" + got.split()[0])
+        chk.nontriv(json.dumps(inp))
+        if got.strip() != ("ok " + " ".join(str(b) for b in exp)).strip():
+            chk.violate("an inclusion function is not resolved relative to the file that contains it", inp, "ok " + " ".join(str(b) for b in exp), got)
+    chk.sample({"tree": [(n, c if isinstance(c, str) else c.hex()) for n, c in tcases[-1][0]], "expected": tcases[-1][1]})
+    chk.traces += len(aops)
+    # ---------------- the real file system: nothing outside the working directory can be named, <std>/ is the library only
+    binary = fw.build_real_binary()
+    tmp = tempfile.mkdtemp(prefix="c14-", dir=fw.CACHE)
+    try:
+        work = os.path.join(tmp, "outer", "work")
+        os.makedirs(os.path.join(work, "lib", "sub"))
+        os.makedirs(os.path.join(work, "<std>", "cpu"))
+        SENT = "5e71"
+        open(os.path.join(tmp, "outer", "sentinel.asm"), "w").write("#d16 0x5e71\n")
+        open(os.path.join(tmp, "outer", "sentinel.bin"), "wb").write(bytes.fromhex(SENT))
+        open(os.path.join(tmp, "sentinel.asm"), "w").write("#d16 0x5e71\n")
+        open(os.path.join(tmp, "sentinel.bin"), "wb").write(bytes.fromhex(SENT))
+        open(os.path.join(work, "lib", "x.asm"), "w").write("#d8 0xa1\n")
+        open(os.path.join(work, "lib", "d.bin"), "wb").write(b"\xd1\xd2")
+        open(os.path.join(work, "<std>", "local.asm"), "w").write("#d16 0x5e71\n")
+        open(os.path.join(work, "<std>", "local.bin"), "wb").write(bytes.fromhex(SENT))
+        open(os.path.join(work, "<std>", "cpu", "6502.asm"), "w").write("#d16 0x5e71\n")
+        rcs = []
+        # controls
+        rcs.append(("main.asm", '#include "lib/x.asm"\n#d8 0xff\n', "a1ff"))
+        rcs.append(("main.asm", '#d incbin("lib/d.bin")\n', "d1d2"))
+        rcs.append(("main.asm", '#include "<std>/cpu/6502.asm"\nnop\n', "ea"))
+        rcs.append(("lib/sub/main.asm", '#include "../x.asm"\n#d incbin("../d.bin")\n', "a1d1d2"))
+        for _ in range(400 if thorough else 60):
+            root = rng.choice(["main.asm", "main.asm", "lib/main.asm", "lib/sub/main.asm", "./main.asm", "lib/../main.asm"])
+            depth = ref_navigate("", root)[1].count("/") if ref_navigate("", root)[0] == "ok" else 0
+            ups = depth + rng.randrange(1, 3)
+            tgt = rng.choice(["sentinel", "outer/sentinel", "work/../sentinel"]) if ups > depth + 1 else "sentinel"
+            kind = rng.choice(["include", "incbin", "incbinstr"])
+            ext = ".asm" if kind == "include" else ".bin"
+            fam = rng.random()
+            if fam < 0.45:
+                rel = spell(rng, "/".join([".."] * ups + [tgt + ext]))
+            elif fam < 0.75:
+                rel = "<std>/" + "/".join([".."] * (ups + rng.randrange(0, 2)) + [tgt + ext])
+                if rng.random() < 0.3:
+                    rel = rel.replace("/", "\\")
+            elif fam < 0.85:
+                rel = rng.choice(["<std>/local", "<std>/./local", "<std>/cpu/../local"]) + ext
+            elif fam < 0.93:
+                rel = os.path.join(tmp, "outer", "sentinel" + ext)
+            else:
+                rel = "/" + "/".join([".."] * ups + [tgt + ext])
+            lit = rel.replace("\\", "\\\\")
+            text = ('#include "%s"\n' % lit) if kind == "include" else ('#d %s("%s")\n' % ("incbin" if kind == "incbin" else "inchexstr", lit))
+            rcs.append((root, text, None))
+        for root, text, want in rcs:
+            chk.evaluations += 1
+            rp = os.path.normpath(os.path.join(work, root))
+            open(rp, "w").write(text)
+            try:
+                r = subprocess.run([binary, root, "-f", "hexstr", "-p", "-q"], cwd=work, stdout=subprocess.PIPE, stderr=subprocess.PIPE, timeout=20)
+            finally:
+                os.remove(rp)
+            out = r.stdout.decode(errors="replace").strip()
+            inp = {"root": root, "text": text, "cwd": "<scratch>/outer/work", "outside": ["<scratch>/outer/sentinel.*", "<scratch>/sentinel.*"]}
+            chk.nontriv((root, text))
+            if want is not None:
+                chk.count("realfs_control")
+                if r.returncode != 0 or out != want:
+                    chk.violate("a file inside the working directory (or the built-in library) is not included", inp, want, "exit %d: %s %s" % (r.returncode, out[:80], r.stderr[-200:].decode(errors="replace")))
+            else:
+                chk.count("realfs_escape_exit_%d" % r.returncode)
+                if r.returncode not in (0, 1):
+                    chk.violate("the real binary ended abnormally", inp, "a diagnostic", "exit %d: %s" % (r.returncode, r.stderr[-200:].decode(errors="replace")))
+                elif r.returncode == 0 or SENT in out:
+                    chk.violate("a file outside the working directory (or a disk file under <std>/) was read", inp, "rejected", "exit %d: %s" % (r.returncode, out[:80]))
+        chk.traces += len(rcs)
+    finally:
+        shutil.rmtree(tmp, ignore_errors=True)
     chk.notes.append("theorems: navigate_no_dotdot, escape_rejected(_deep), backslash_is_slash, std_passthrough, once_at_most_once, cycle_is_error, self_inclusion_error, markers_in_order, splice_at_point, incbin/incstr exact and rejection theorems")
 
 
